@@ -1,14 +1,16 @@
 (* Correspondence case and checker for C10 (deterministic sampler / stress-relief sampling). *)
 From Refinery Require Export Lib.Base Model.Determ.
-From Refinery Require Gen.GenC10.
 
 Inductive kind := KDet | KStress.
 
 (* one (trace ID, rate) observation *)
 Record obs := {
   o_crash : bool;          (* Start / UpdateFromConfig panicked or returned an error *)
-  o_rates : list Z;        (* rate returned by every call (instances, trace variants, repeats) *)
-  o_keeps : list bool      (* keep flag returned by every call *)
+  o_rates : list Z;        (* every distinct rate returned over all evaluations of this (trace ID, rate):
+                              two instances, traces with the same ID and other content, repeated calls,
+                              and (stress relief) one object reloaded down and up through all the rates
+                              of the case; the first evaluation's value comes first *)
+  o_keeps : list bool      (* every distinct keep flag returned, likewise *)
 }.
 
 (* one trace ID: the hash the harness computed for it and one obs per rate of the case *)
@@ -24,17 +26,16 @@ Record case := {
 }.
 
 Definition MAXof (k : kind) : Z :=
-  match k with KDet => GenC10.det_max | KStress => GenC10.stress_max end.
+  match k with KDet => DET_MAX | KStress => STRESS_MAX end.
 
 (* the model's answer; None = no answer (crash) *)
 Definition model (k : kind) (rate h : Z) : option (Z * bool) :=
   match k with KDet => det_sample rate h | KStress => Some (stress_sample rate h) end.
 
-(* rates for which the model is compared with the implementation: the modelled domain minus
-   deterministic rates >= 2^32 (the uint32 truncation there is C28's subject) *)
+(* rates for which the model is compared with the implementation: every Go int / uint64 *)
 Definition compared (k : kind) (rate : Z) : bool :=
   match k with
-  | KDet => rate <? 4294967296
+  | KDet => (-9223372036854775808 <=? rate) && (rate <? 9223372036854775808)
   | KStress => (0 <=? rate) && (rate <? 18446744073709551616)
   end.
 
@@ -54,7 +55,7 @@ Definition hd_rate (o : obs) : Z := hd 0 (o_rates o).
 Definition obs_agrees (k : kind) (h rate : Z) (o : obs) : bool :=
   if negb (compared k rate) then true else
   match model k rate h with
-  | None => true   (* model: Start divides by zero; outside C10's range, any behaviour accepted *)
+  | None => o_crash o   (* the model has no panic path left; kept for a future one *)
   | Some (r, kp) => negb (o_crash o) && negb (length (o_keeps o) =? 0)%nat &&
                     all_eq_z r (o_rates o) && all_eq_b kp (o_keeps o)
   end.
@@ -70,7 +71,7 @@ Definition row_agrees (k : kind) (rates : list Z) (r : row) : bool :=
   zip_all (obs_agrees k (r_h r)) rates (r_obs r).
 
 Definition model_agrees (c : case) : bool :=
-  String.eqb (c_salt c) GenC10.det_salt && N.eqb (c_seed c) GenC10.stress_seed &&
+  String.eqb (c_salt c) DET_SALT && N.eqb (c_seed c) STRESS_SEED &&
   forallb (row_agrees (c_kind c) (c_rates c)) (c_rows c).
 
 (* ---- property monitor on the implementation's observations ---- *)
@@ -86,9 +87,9 @@ Definition mon_le1 (rate : Z) (o : obs) : bool :=
 Definition mon_rate (k : kind) (rate : Z) (o : obs) : bool :=
   if in_range k rate && (1 <? rate) && negb (o_crash o) then all_eq_z rate (o_rates o) else true.
 
-(* 16: no answer for a rate in the property's range *)
+(* 16: no answer (the sampler panicked or returned an error) *)
 Definition mon_answer (k : kind) (rate : Z) (o : obs) : bool :=
-  if in_range k rate then negb (o_crash o) && negb (length (o_keeps o) =? 0)%nat else true.
+  negb (o_crash o) && negb (length (o_keeps o) =? 0)%nat.
 
 (* 13: the threshold sits at 1/rate of the hash range (one unit of slack on either side) *)
 Definition mon_position (k : kind) (h rate : Z) (o : obs) : bool :=
